@@ -15,6 +15,43 @@ KEYWORDS = ["fn", "let", "match", "if", "else", "while", "struct", "enum", "trai
 PUNCT = ["(", ")", "{", "}", "[", "]", ",", ";", ":", "::", "->", "=>", "=", "==", "+", "-", "*", "/", ".", "|", "&&", "||", "!", "<", ">", "#", "_", "\"", "\\\\", "\\"]
 
 
+# trait objects made from instances of generic types, inherent and trait methods on them
+DYN_GENERIC = [
+    """enum Maybe[T] { Nothing, Just(T) }
+struct Pair[A, B] { l: A, r: B }
+trait Describe { fn describe(Self) -> string; }
+impl Describe for Maybe[int32] { fn describe(self: Maybe[int32]) -> string { match self { Nothing => "none", Just(n) => int32_to_string(n) } } }
+impl Describe for Pair[int32, string] { fn describe(self: Pair[int32, string]) -> string { int32_to_string(self.l) + self.r } }
+fn show(d: dyn Describe) -> string { Describe::describe(d) }
+fn main() {
+    let j: Maybe[int32] = Just(3);
+    let a: dyn Describe = j;
+    let m: Maybe[int32] = Nothing;
+    let p: Pair[int32, string] = Pair { l: 1, r: "x" };
+    let _ = string_println(show(a));
+    let _ = string_println(show(m));
+    string_println(show(p))
+}
+""",
+    """struct Cell[T] { v: T }
+trait Sz { fn sz(Self) -> int32; }
+impl Sz for Cell[bool] { fn sz(self: Cell[bool]) -> int32 { if self.v { 1 } else { 0 } } }
+impl Sz for Vec[int32] { fn sz(self: Vec[int32]) -> int32 { vec_len(self) } }
+impl Sz for (int32, Cell[bool]) { fn sz(self: (int32, Cell[bool])) -> int32 { self.0 } }
+fn main() {
+    let c0: Cell[bool] = Cell { v: true };
+    let c: dyn Sz = c0;
+    let v0: Vec[int32] = vec_new();
+    let v1: Vec[int32] = vec_push(v0, 4);
+    let w: dyn Sz = v1;
+    let t0: (int32, Cell[bool]) = (7, Cell { v: false });
+    let t: dyn Sz = t0;
+    string_println(int32_to_string(Sz::sz(c) + Sz::sz(w) + Sz::sz(t)))
+}
+""",
+]
+
+
 def mutate(rng, t):
     k = rng.random()
     if k < 0.2:
@@ -84,6 +121,27 @@ def check(run):
     texts = [open(p, encoding="utf-8").read() for p in corpus]
     n_mut = 500 if run.tier == "quick" else 8000
     progs = [mutate(rng, rng.choice(texts)) for _ in range(n_mut)]
+    # programs of every generator of this suite (generics, traits and trait objects over generic instances, closures,
+    # derives, effects in every position) as they are, and mutated
+    sys.path.insert(0, os.path.dirname(os.path.abspath(__file__)))
+    import c18 as c18mod
+    import genericgen
+    import genprog
+    import namegen
+
+    q = run.tier == "quick"
+    valid = [genprog.G(rng, fail_rate=0.05).program(depth=rng.choice([2, 3])) for _ in range(20 if q else 300)]
+    valid += [genprog.closure_program(rng) for _ in range(10 if q else 150)]
+    valid += [genprog.discard_program(rng) for _ in range(10 if q else 150)]
+    valid += [genericgen.Gen(rng).program(n_stmts=4, depth=2)[0] for _ in range(15 if q else 200)]
+    for _ in range(8 if q else 120):
+        g = c18mod.Gen(rng)
+        g.make_types(rng.choice([2, 3]))
+        valid.append(g.program(4)[0])
+    valid += [t for _, _, _, t in namegen.cases(rng, 0, full=False)][:: 40 if q else 4]
+    valid += DYN_GENERIC
+    n_valid = len(valid)
+    progs += valid + [mutate(rng, rng.choice(valid)) for _ in range(200 if q else 4000)]
     progs += ["fn main() { " + "(" * d + "1" + ")" * d + " }" for d in (50, 100)]
     progs += ["fn main() { let x = " + "if true { " * d + "1" + " } else { 2 }" * d + "; () }" for d in (20, 50)]
     progs += ["fn main() { " + "let _ = 1; " * 1000 + "() }"]
